@@ -68,4 +68,10 @@ CHECKS = {
         "text": "The composition property: every ordered pair of field kinds (every encoding family, calibrator form, enum/bool, every string/binary length and delimiting form, time types) in three container shapes is rendered to XML, loaded, and fed pattern packets and every short stream over a 4-packet family; the generator's output is compared item by item (names, order, value, raw value, built-in kind, errors in place, skipping) with the reference.",
         "note": "Interaction coverage is pairwise (triples for the core palette); data values are pattern families, not all bit patterns; fields running off the packet end are left to C14.",
     },
+    "C12": {
+        "level": "model_checking",
+        "technique": "exhaustive enumeration of packet histories (all sequences up to a length bound over a 16-symbol alphabet) replayed on the real generator and on a per-APID reassembly state machine; every model trace validated against the implementation",
+        "text": "Every history up to the bound over {FIRST, CONTINUATION, LAST, UNSEGMENTED} x 2 APIDs x {in sequence, gap}, with wrap-around base counts and several secondary-header lengths, is fed to packet_generator(combine_segmented_packets=True); the yielded raw_data list must equal the model's and no tagged raw packet may contribute to two outputs. States of the model, packets fed and histories replayed are measured.",
+        "note": "Warnings are not compared; histories longer than the bound are not explored (the family does not sample).",
+    },
 }
